@@ -940,26 +940,65 @@ func ruleO5(c *an.Ctx) {
 		c.Check("O5", "setPrenode-recursion@(*Node).setPrenode", nxt.Pos(), w == nil,
 			"setPrenode must call itself for every sub-node (enclosed pipelines inherit the preflight dependency); "+c.WitnessString(w))
 	}
-	okMap, _ := an.MustPass(setPre, nil, an.IsReturn, func(in ssa.Instruction) bool {
-		mu, ok := in.(*ssa.MapUpdate)
-		if !ok || mu.Value != ssa.Value(setPre.Params[1]) {
-			return false
-		}
-		if an.LoadsField(mu.Map, prenodes) {
-			return true
-		}
-		// a fresh map literal holding the prenode that becomes self.prenodes
-		if _, fresh := mu.Map.(*ssa.MakeMap); fresh {
-			for _, st := range an.StoresToField(setPre, prenodes) {
-				if st.Val == mu.Map {
-					return true
+	// the store and the registration, directly or in a helper that receives the prenode and does
+	// them on every path (round-9 refactoring: addPrenode(id, node))
+	storesPrenode := func(host *ssa.Function, val ssa.Value) func(in ssa.Instruction) bool {
+		return func(in ssa.Instruction) bool {
+			mu, ok := in.(*ssa.MapUpdate)
+			if !ok || mu.Value != val {
+				return false
+			}
+			if an.LoadsField(mu.Map, prenodes) {
+				return true
+			}
+			// a fresh map literal holding the prenode that becomes self.prenodes
+			if _, fresh := an.Strip(mu.Map).(*ssa.MakeMap); fresh {
+				for _, st := range an.StoresToField(host, prenodes) {
+					if an.Strip(st.Val) == an.Strip(mu.Map) {
+						return true
+					}
 				}
 			}
+			// a phi of the existing map and a fresh one (lazily allocated)
+			if ph, isPhi := mu.Map.(*ssa.Phi); isPhi {
+				for _, e := range ph.Edges {
+					if an.LoadsField(e, prenodes) {
+						return true
+					}
+				}
+			}
+			return false
 		}
-		return false
-	})
+	}
+	viaHelper := func(direct func(host *ssa.Function, val ssa.Value) func(ssa.Instruction) bool) func(in ssa.Instruction) bool {
+		return func(in ssa.Instruction) bool {
+			if direct(setPre, ssa.Value(setPre.Params[1]))(in) {
+				return true
+			}
+			cl := an.AsCallAny(in)
+			if cl == nil {
+				return false
+			}
+			h := cl.Common().StaticCallee()
+			if h == nil || h.Blocks == nil || h.Pkg != setPre.Pkg || h == setPre {
+				return false
+			}
+			for i, a := range cl.Common().Args {
+				if an.Strip(a) == ssa.Value(setPre.Params[1]) && i < len(h.Params) {
+					ok, _ := an.MustPass(h, nil, an.IsReturn, direct(h, ssa.Value(h.Params[i])))
+					if ok {
+						return true
+					}
+				}
+			}
+			return false
+		}
+	}
+	okMap, _ := an.MustPass(setPre, nil, an.IsReturn, viaHelper(storesPrenode))
 	c.Check("O5", "setPrenode-stores-prenode@(*Node).setPrenode", setPre.Pos(), okMap, "setPrenode must store the prenode into self.prenodes on every path")
-	okPost, _ := an.MustPass(setPre, nil, an.IsReturn, func(in ssa.Instruction) bool { return an.CalleeIs(in, setPost) })
+	okPost, _ := an.MustPass(setPre, nil, an.IsReturn, viaHelper(func(host *ssa.Function, val ssa.Value) func(ssa.Instruction) bool {
+		return func(in ssa.Instruction) bool { return an.CalleeIs(in, setPost) }
+	}))
 	c.Check("O5", "setPrenode-registers-postnode@(*Node).setPrenode", setPre.Pos(), okPost, "setPrenode must register self as post-node of the prenode on every path")
 }
 
